@@ -1010,21 +1010,27 @@ where
             lc
         })
         .collect();
-    sorted_lcs.sort_by(|a, b| {
-        if let Some(b_resume_lc) = &b.resume_lc {
-            if b_resume_lc.id == a.id {
-                // b is a resume of a so a must be earlier
-                return std::cmp::Ordering::Less;
+    // sort by start_time but a resumed lifecycle must never be sorted before the lifecycle it resumes
+    // (its start_time can be earlier). The sort key needs to be a total order (a pairwise rule like
+    // "b is a resume of a so a is earlier, else compare start_time" is not transitive).
+    let sort_time = |lc: &Lifecycle| -> u64 {
+        // chain of resumed lifecycles, newest first:
+        let mut chain = vec![lc];
+        let mut cur = lc;
+        while let Some(resume_lc) = &cur.resume_lc {
+            match lcr.get_one(&resume_lc.id) {
+                Some(resumed) if resumed.id < cur.id => {
+                    chain.push(resumed);
+                    cur = resumed;
+                }
+                _ => break,
             }
         }
-        if let Some(a_resume_lc) = &a.resume_lc {
-            if a_resume_lc.id == b.id {
-                // a is a resume of b so b must be earlier
-                return std::cmp::Ordering::Greater;
-            }
-        }
-        a.start_time.cmp(&b.start_time)
-    });
+        chain.iter().rev().fold(0u64, |prev_sort_time, lc| {
+            std::cmp::max(lc.start_time, prev_sort_time.saturating_add(1))
+        })
+    };
+    sorted_lcs.sort_by_cached_key(|lc| (sort_time(lc), lc.id));
     sorted_lcs
 }
 
